@@ -790,7 +790,9 @@ def timers_part(own):
     return fn
 
 
-TIMERS_C04 = ("lease-timer-missed", "lease-violated", "attempt-number")
+TIMERS_C04 = ("lease-timer-missed", "lease-violated", "attempt-number", "stale-config-in-waiting-pull")
+TIMERS_C10 = ("wake-missed-after-timer-round",)
+TIMERS_C17 = ("stale-config-in-waiting-pull",)
 TIMERS_C02 = ("stale-config-in-waiting-pull",)
 TIMERS_C14 = ("delivered-after-retention", "delay-timer-missed", "delivered-before-delay")
 TIMERS_C15 = ("reused-job-misses-rows",)
@@ -1124,8 +1126,8 @@ CHECKS = {
                      "known finding pull-heartbeat: Pull commits its expiry heartbeat in an own transaction"]),
     "C10": dict(
         props=["C10"],
-        parts=[part_notify_seq, part_wake_sched],
-        rule="(1) random register/cancel/wake sequences on the real registry vs the model (channels closed after every call; waiters on a random subset of subscriptions); "
+        parts=[part_notify_seq, part_wake_sched, timers_part(TIMERS_C10)],
+        rule="[+ real-time: a waiting pull whose next-attempt timer fired in vain is still woken by the next publish] (1) random register/cancel/wake sequences on the real registry vs the model (channels closed after every call; waiters on a random subset of subscriptions); "
              "(2) a real waiting pull (ExecuteClient, MaxWait 30 s) held at its transaction boundaries by the SQL driver gate while each of 8 writer kinds commits "
              "before it starts / between heartbeat and query / after the query but before it blocks / after it blocked; it must return the message within 2 s; "
              "non-trivial = distinct (writer, placement) pairs",
@@ -1141,8 +1143,8 @@ CHECKS = {
         assumptions=BUS_ASSUME),
     "C17": dict(
         props=["C17", "C17codec", "Tie"],
-        parts=[engine_part("config", 32, 600, 45, claim_c17, ["publish_ok", "pull_nonempty"]), part_codec],
-        rule="engine profile config: create/get/update/list of subscriptions and topics with generated configurations (durations absent/0/negative/45 s..24 h, retry bounds incl. 0 and negative, "
+        parts=[engine_part("config", 32, 600, 45, claim_c17, ["publish_ok", "pull_nonempty"]), part_codec, timers_part(TIMERS_C17)],
+        rule="[+ real-time: a configuration change that commits while a pull is waiting is what that pull enforces when it hands out afterwards] engine profile config: create/get/update/list of subscriptions and topics with generated configurations (durations absent/0/negative/45 s..24 h, retry bounds incl. 0 and negative, "
              "dead-letter policies, push configs, labels, filters, every mask path incl. unknown/unsupported/repeated, in sequence) + duration codec: Interval.Value/Scan vs model on boundary and random "
              "int64 durations, PostgreSQL-style strings, Go-format strings, garbage",
         assumptions=BUS_ASSUME + ["Go-format strings with more fraction digits than Duration.String() produces are outside the exact-float class and not generated",
